@@ -218,6 +218,7 @@ def run_harness(h, cfg, workdir, trace=False):
                                    "--unwinding-assertions", "--json-ui", "--verbosity", "8"]
     if uw:
         cmd += ["--unwindset", ",".join(uw)]
+    cmd += list(cfg.get("extra") or [])
     if trace:
         cmd += ["--trace"]
     outp = os.path.join(workdir, h["name"] + (".trace" if trace else "") + ".cbmc.json")
@@ -273,7 +274,8 @@ def run_harness(h, cfg, workdir, trace=False):
 
 
 def run_all(harnesses, cfg_of, workdir, jobs=None):
-    jobs = jobs or max(1, (os.cpu_count() or 4) - 1)
+    # memory-bound machine (62 GB, no swap): cap concurrency so that jobs x per-harness limit fits
+    jobs = jobs or int(os.environ.get("VERIF_JOBS", "6"))
     os.makedirs(workdir, exist_ok=True)
     results = []
     with ThreadPoolExecutor(max_workers=jobs) as ex:
